@@ -58,6 +58,10 @@ package operations
 //@ func marshalBody
 //@   trusted json.Marshal of operation body structs does not fail
 //@   mode math
+//@   props C14
+//@   panic-assumed-unreachable
+//@   checks[the-body-itself-is-marshalled] !c.(string) && !c.([]byte) ==> G.lastMarshaled == c
+//@   checks[the-marshalled-bytes-are-returned-untouched] !c.(string) && !c.([]byte) ==> len(result) == G.outLen && (forall i int :: {result[i]} 0 <= i && i < len(result) ==> result[i] == sel(G.outBytes, i))
 //@   modifies G:lastMarshaled
 
 // SetID on any operation writes the ID field of its embedded baseOperation
